@@ -3,10 +3,11 @@
 # expects: demo passes unchanged, fails with patch<n>; tree builds and repo tests pass with the patch
 . /verif/env.sh
 P=$1; N=$2; shift 2
-WT=/tmp/wt-$P
+WT=${WT_PREFIX:-/tmp/wt-}$P
+SO=${SEED_OUT:-/tmp/seed-out}
 cd $WT && git checkout -q -- . && git clean -fdq
-echo "== unchanged:"; (cd /tmp/seed-out/$P/demo && timeout 900 "$@" >/tmp/confirm.out 2>&1); echo "demo exit $?"
-cd $WT && git apply /tmp/seed-out/$P/patch$N.diff || { echo "PATCH DOES NOT APPLY"; exit 1; }
+echo "== unchanged:"; (cd $SO/$P/demo && timeout 900 "$@" >/tmp/confirm.out 2>&1); echo "demo exit $?"
+cd $WT && git apply $SO/$P/patch$N.diff || { echo "PATCH DOES NOT APPLY"; exit 1; }
 go build ./... && echo "builds"; echo "repo tests ok packages: $(go test -vet=off -count=1 ./... 2>&1 | grep -c '^ok')  failing: $(go test -vet=off -count=1 ./... 2>&1 | grep -c '^FAIL')"
-echo "== with patch$N:"; (cd /tmp/seed-out/$P/demo && timeout 900 "$@" >/tmp/confirm.out 2>&1); echo "demo exit $?"; tail -3 /tmp/confirm.out | cut -c1-200
+echo "== with patch$N:"; (cd $SO/$P/demo && timeout 900 "$@" >/tmp/confirm.out 2>&1); echo "demo exit $?"; tail -3 /tmp/confirm.out | cut -c1-200
 cd $WT && git checkout -q -- . && git clean -fdq
